@@ -118,6 +118,18 @@ def main(tier):
                     ratio_scalar = fac(u) / mag
                     if ppb(fac(u) / mag2) > ppb(ratio_scalar):
                         ratio_scalar = fac(u) / mag2
+                    # the left-to-right composition once more with other amounts (3 x the prefactor of every factor): the same operations between
+                    # the same quantities, evaluated a second time, must still match the units of the operands
+                    accb = 1.0
+                    for p in g["parts"]:
+                        for _ in range(max(p["exp"], 0)):
+                            accb = accb * Scalar(3.0 * p["pre"], p["atom"])
+                    for p in g["parts"]:
+                        for _ in range(max(-p["exp"], 0)):
+                            accb = accb / Scalar(3.0 * p["pre"], p["atom"])
+                    magb = (basemag(accb) if not isinstance(accb, float) else accb) / 3.0 ** sum(p["exp"] for p in g["parts"])
+                    if ppb(fac(u) / magb) > ppb(ratio_scalar):
+                        ratio_scalar = fac(u) / magb
                     # the same composition on numpy-backed Arrays, down to the leaves (a part that is itself a compound row - ft2, in3 - is
                     # expanded into its own parts), the combination evaluated twice from the same part powers: operands that took part in a
                     # product / quotient must still hold the amounts their label says
